@@ -63,6 +63,8 @@ func toGM(s model.Schema) gm.Schema {
 }
 
 func checkEngine(c EngCase) (ExOutcome, error) {
+	model.SettleShortFKs(&c.A, &c.B)
+	model.SettleShortFKs(&c.B, &c.A)
 	if c.CLI {
 		return checkCLI(c)
 	}
@@ -183,6 +185,8 @@ func tableDump(path string, tables []string) (string, error) {
 // checkCLI: `atlas schema apply --exclude <tables>` (and/or an --env with diff.skip): excluded tables are byte-identical
 // afterwards, skipped kinds of change did not happen, everything else converges to the desired schema.
 func checkCLI(c EngCase) (ExOutcome, error) {
+	model.SettleShortFKs(&c.A, &c.B)
+	model.SettleShortFKs(&c.B, &c.A)
 	var out ExOutcome
 	sb, err := cli.NewSandbox()
 	if err != nil {
